@@ -773,6 +773,22 @@ def check(run):
     if mlines:
         run.sample({"primitive_case": mlines[-1][:300] + " ...", "impl": mexpect[-1][1][:120] if mexpect[-1][0] == "prim" else "module event"})
 
+    # ---- corpus of earlier identity failures (scenario, reference, signature of the root cause), run first
+    import glob
+    for cf in sorted(glob.glob(os.path.join(V.ROOT, "corpus", "C13_identity_*.json"))):
+        cj = json.load(open(cf))
+        rc1, o1, e1 = run_scn(unit, d, cj["scenario"], "i.scn")
+        rc2, o2, e2 = run_scn(unit, d, cj["reference"], "j.scn")
+        run.count("corpus:" + os.path.basename(cf), True)
+        A, B = last_step_block(o1), last_step_block(o2)
+        if A is None or B is None or "echo END" not in o1 or "echo END" not in o2:
+            run.violation("identity:crash", "corpus history %s no longer runs to its end (rc=%d/%d)" % (os.path.basename(cf), rc1, rc2),
+                          {"kind": "identity", "scenario": cj["scenario"], "reference": cj["reference"]})
+        elif not obs_equal(A, B):
+            run.violation(cj["signature"], "corpus history %s (%s): the last step differs from the run in which the deleted objects never existed: %s instead of %s" % (
+                os.path.basename(cf), cj.get("note", "")[:300], [l for l in A if l not in B][:4], [l for l in B if l not in A][:4]),
+                {"kind": "identity", "scenario": cj["scenario"], "reference": cj["reference"]})
+
     # ---- (3) define/delete identity on the implementation: survivors-only re-run
     r2 = V.rng("C13-identity")
     nid = 40 if quick else 800
@@ -795,11 +811,17 @@ def check(run):
         blocks = split_events(o1) or []
         # was a bias deleted while inactive / did the monitor fire?
         f1_hit = False
+        f2_hit = []
         prev = {"objs": [], "atoms": {}}
         for ev, blk in zip(seq["events"], blocks):
             dumps = D.parse_deps_blocks(blk.split("\n"))
             if ev["op"] in ("delbias", "delcv", "reset") and biases_inactive(prev):
                 f1_hit = True
+            if dumps and ev["op"] in ("delbias", "delcv"):
+                # a surviving variable that was active before the deletion and is not after it (finding F2): from then on
+                # it is not computed until another bias wakes it up, and its lagged total force restarts from nothing
+                was = {o["desc"] for o in prev["objs"] if o["cls"] == 1 and o["fs"] and o["fs"][0][1]}
+                f2_hit += [o["desc"] for o in dumps[-1]["objs"] if o["cls"] == 1 and o["fs"] and not o["fs"][0][1] and o["desc"] in was]
             if dumps:
                 prev = dumps[-1]
         f1, f2 = D.parse_deps_blocks(o1.split("\n")), D.parse_deps_blocks(o2.split("\n"))
@@ -809,7 +831,7 @@ def check(run):
         run.count("identity:%d" % k, ndeleted > 0 and bool(lcv))
         run.dist("identity:histories")
         run.dist("identity:deletions", ndeleted)
-        compare_identity(run, seq, ref, f1[-1], f2[-1], o1, o2, tabs, f1_hit)
+        compare_identity(run, seq, ref, f1[-1], f2[-1], o1, o2, tabs, f1_hit, f2_hit)
     if not quick:
         asan_stream(run, 300)
     run.cov["correspondence"].update({"histories": len(seqs), "primitive_cases": nprim, "module_event_cases": ndel, "identity_histories": nid})
@@ -870,7 +892,7 @@ def table_oracles(run, tabs, label):
                     label, D.CLASSES[c], f, ft["D"], sorted(cl & set(ft["X"]))), {"kind": "table", "class": c, "f": f})
 
 
-def compare_identity(run, seq, ref, s1, s2, o1, o2, tabs, f1_hit):
+def compare_identity(run, seq, ref, s1, s2, o1, o2, tabs, f1_hit, f2_hit=()):
     rp = {"kind": "identity", "scenario": scenario(seq, dumps=False), "reference": scenario(ref, dumps=False)}
     if len(s1["objs"]) != len(s2["objs"]):
         run.violation("identity:objects", "after the history %d objects remain, %d in the run where the deleted objects never existed" % (
@@ -888,12 +910,13 @@ def compare_identity(run, seq, ref, s1, s2, o1, o2, tabs, f1_hit):
         diffB = [l for l in B if l not in A][:4]
         if f1_hit:
             sig = F1
-        elif deact:
+        elif deact or f2_hit:
             sig = F2
         else:
             sig = "identity:observables"
         run.violation(sig, "values/energies/forces at the last step differ from the run in which the deleted objects never existed: %s instead of %s%s" % (
-            diffA, diffB, (" (inactive after the history: %s)" % deact) if deact else ""), rp)
+            diffA, diffB, (" (inactive after the history: %s)" % deact) if deact else
+            ((" (deactivated by the deletion of its last bias during the history: %s)" % sorted(set(f2_hit))) if f2_hit else "")), rp)
 
 
 def replay(path):
